@@ -55,6 +55,16 @@ def fold(rep: Report, results: List[dict], jobs: List[dict], want_q: set, c04_cb
     return progs, ops, nodes, gen_fail
 
 
+def _is_abstract_without_field(job, tname, fname) -> bool:
+    from graphql import build_schema, is_abstract_type
+
+    try:
+        t = build_schema(job["schema"]).type_map.get(tname)
+    except Exception:
+        return False
+    return t is not None and is_abstract_type(t) and fname not in getattr(t, "fields", {})
+
+
 def classify_unanalysable(job, r) -> dict:
     """signature of a corpus package that does not generate / load (so that listed defects are acknowledged, new ones reported)"""
     import re
@@ -64,6 +74,8 @@ def classify_unanalysable(job, r) -> dict:
     q = job.get("queries") or ""
     if not gen_ok and "'NoneType' object has no attribute 'name'" in text and re.search(r"\.\.\.\s*(@\w+(\([^)]*\))?\s*)?\{", q):
         cls = "untyped_inline_fragment_crash"
+    elif not gen_ok and (m := re.search(r"Field (\w+) not found in type (\w+)\.", text)) and _is_abstract_without_field(job, m.group(2), m.group(1)) and re.search(r"on\s+%s\b" % m.group(2), q):
+        cls = "abstract_type_condition_inherits_parent_fields_crash"
     elif gen_ok and "needs a discriminator field" in text and re.search(r"\w+\s*:\s*__typename", q):
         cls = "aliased_typename_suppresses_discriminator"
     elif gen_ok and (re.search(r"cannot import name '\w+' from '[\w.]*fragments'", text) or re.search(r"No module named '[\w.]*fragments'", text)):
